@@ -83,6 +83,17 @@ M = [
     ("st_pc_total_valid_only_rfc", "C17", "src/stats/per_client.rs", ".map(|&v| v.rfc_requests as u64 + v.classic_requests as u64)", ".map(|&v| v.rfc_requests as u64)", "break"),
     ("st_pc_total_bytes_counts_responses", "C17", "src/stats/per_client.rs", "self.clients.values().map(|&v| v.bytes_sent).sum()", "self.clients.values().map(|&v| v.rfc_responses_sent as usize).sum()", "break"),
     ("st_agg_getter_wrong_field", "C17", "src/stats/aggregated.rs", "    fn total_health_checks(&self) -> u64 {\n        self.health_checks", "    fn total_health_checks(&self) -> u64 {\n        self.invalid_requests", "break"),
+    ("h_msg_size_operands_swapped", "C05", "src/message.rs", "        4 + tags_size + offsets_size + values_size", "        values_size + offsets_size + tags_size + 4", "harmless"),
+    ("h_msg_offsets_size_rewritten", "C05", "src/message.rs", "let offsets_size = if num_tags < 2 { 0 } else { 4 * (num_tags - 1) };", "let offsets_size = if num_tags >= 2 { 4 * (num_tags - 1) } else { 0 };", "harmless"),
+    ("h_merkle_is_empty", "C04", "src/merkle.rs", "while !self.levels[level].is_empty() {", "while self.levels[level].len() > 0 {", "harmless"),
+    ("h_request_temp_variable", "C07", "src/request.rs", "    if num_bytes < MIN_REQUEST_LENGTH {", "    let too_short = num_bytes < MIN_REQUEST_LENGTH;\n    if too_short {", "harmless"),
+    ("h_keys_radi_match_to_if", "C11", "src/key/online.rs", "        let radi_time = match version {\n            Version::Google => 5_000_000, // five seconds in microseconds\n            Version::RfcDraft13 => 5,      // five seconds\n        };", "        let radi_time = if version == Version::Google { 5_000_000 } else { 5 };", "harmless"),
+    ("h_responder_debug_assert", "C09", "src/responder.rs", "        let merkle_root = self.merkle.compute_root();", "        debug_assert!(!self.requests.is_empty());\n        let merkle_root = self.merkle.compute_root();", "harmless"),
+    ("h_client_midpoint_operands", "C03", "src/bin/roughenough-client.rs", "let nsecs = (midpoint - (seconds * 10_u64.pow(6))) * 10_u64.pow(3);", "let nsecs = 10_u64.pow(3) * (midpoint - (10_u64.pow(6) * seconds));", "harmless"),
+    ("h_stats_plus_equals", "C17", "src/stats/aggregated.rs", "        self.rfc_requests += 1", "        self.rfc_requests = self.rfc_requests + 1", "harmless"),
+    ("h_envelope_len_check_flipped", "C14", "src/kms/envelope.rs", "if nonce_len != NONCE_LEN_BYTES || dek_len > ciphertext_blob.len() {", "if dek_len > ciphertext_blob.len() || nonce_len != NONCE_LEN_BYTES {", "harmless"),
+    ("h_config_range_contains", "C16", "src/config/mod.rs", "    if cfg.fault_percentage() > 50 {", "    if cfg.fault_percentage() >= 51 {", "harmless"),
+    ("h_server_srv_local", "C12", "src/request.rs", "        if request_srv != expected_srv {", "        let matches = request_srv == expected_srv;\n        if !matches {", "harmless"),
     # ---- harmless edits: must never give a VIOLATION ----
     ("h_msg_extra_capacity", "C05", "src/message.rs", "let mut out = Vec::with_capacity(self.encoded_size());", "let mut out = Vec::with_capacity(self.encoded_size() + 0);", "harmless"),
     ("h_merkle_renamed_local", "C04", "src/merkle.rs", "let mut node_count = self.levels[0].len();", "let mut node_count: usize = self.levels[0].len();", "harmless"),
